@@ -13,7 +13,8 @@ EXPLANATION = ("Deadlines: the timer callback re-checks the clock and cancels on
                "itself at exactly the deadline; nothing is armed for an infinite deadline; exactly one live timer (writer table); assigning a "
                "deadline drops the old timer and re-arms iff the scope is active and not cancelled; fail_at raises TimeoutError outside the "
                "block exactly when the scope caught its own cancellation and the deadline has passed; fail_after/move_on_* compute now+delay "
-               "(inf for None) and forward shield; the effective deadline accumulates min() before the cancelled test and is -inf once cancelled.")
+               "(inf for None) and forward shield; the effective deadline accumulates min() before the cancelled test and is -inf once cancelled."
+               " current_time() and the timer use the same clock (the running loop's).")
 NOT_DECIDED = "Numeric exactness on a clock, timer resolution, the discrete-event behaviour over whole schedules (needs a virtual clock)."
 
 
